@@ -12,7 +12,14 @@ import YaegiVerif.Proofs.C04Ops
                           run with the facts F read from the source
   `Spec.runGo G st ops`   the Go specification's value semantics on the same store
   `G`                     capacity growth of append: a parameter shared by both sides (all theorems: ∀ G)
-  `Dom ops`               decidable: the sequence belongs to none of the divergence classes of Model/ShareDom.lean
+
+  Until 2026-09-26 the refinement was proved on a decidable domain `Dom` that excluded four classes of operation
+  sequences (findings F04-4, F04-11, F04-5, F04-6, F04-12). Commits 1436613, 8bd8040 (+ 6ebc898), b312e89 and 5a404d3 of the
+  repository repaired them (and 93fb945, da35a0b, 0780d8c three findings outside the former operation language: F04-10,
+  F04-7, F04-9); each repair flipped or introduced extracted facts, the class left the domain, and no class remains:
+  `ops_refine` below is the property at full strength, for the whole operation language. The replay program of every
+  repaired finding is kept as a regression theorem (`…_fixed`), and a `fact_…_matters` theorem shows that the model run
+  with the OLD fact reproduces the old divergence.
 -/
 namespace YaegiVerif.Props.C04
 open YaegiVerif YaegiVerif.Share
@@ -33,37 +40,39 @@ theorem source_tie : Generated.C04.sourceHashes = Expected.C04.sourceHashes := b
 
 /-! ### the refinement -/
 
-/-- The property at full strength (not provable for the unchanged code: see the witnesses below). -/
+/-- **After every step the visible state is the state Go prescribes** — for EVERY operation sequence of the language
+    (assign / op-assign to variables, fields, elements, pointees; define, also of array / slice / map literals in loop
+    bodies; multi-assign; multi-define, also with redeclared variables; append, whatever its operands alias; append of a
+    slice; copy; 2- and 3-index slicing; map insert / delete / lookup / comma-ok lookup in both forms, also declared in
+    loop bodies and with redeclared variables; address-of; dereference; identity call; call of a function that mutates
+    its parameter; range over arrays, slices and pointers to arrays with mutation in the body; closures capturing a
+    per-iteration variable), every start state and every capacity growth function: the mechanism model run with today's
+    facts reaches the SAME state (store, bindings, printed lines, panic) as the specification. No domain restriction. -/
+theorem ops_refine (G : Growth) (st : St) (ops : List Op) :
+    runY share G st ops = Spec.runGo G st ops := runY_spec G ops st
+
+/-- the observable form, from the empty state -/
+theorem ops_refine_obs (G : Growth) (ops : List Op) :
+    obsOf (runY share G St.empty ops) = obsOf (Spec.runGo G St.empty ops) := by
+  rw [ops_refine G St.empty ops]
+
+/-- the statement that could not be proved while findings F04-4 … F04-12 were open (it was refuted by
+    `C04_full_statement_fails`); it is now a theorem -/
 def C04_full_statement : Prop :=
   ∀ (G : Growth) (ops : List Op), obsOf (runY share G St.empty ops) = obsOf (Spec.runGo G St.empty ops)
 
-/-- **After every step the visible state is the state Go prescribes** — for every operation sequence in `Dom`
-    (assign / op-assign to variables, fields, elements, pointees; define; multi-assign; multi-define; append;
-    append of a slice; copy; 2- and 3-index slicing; map insert / delete / lookup / comma-ok lookup; address-of;
-    dereference; identity call; call of a function that mutates its parameter; range over arrays and slices with
-    mutation in the body; closures capturing a per-iteration variable), every start state and every capacity
-    growth function: the mechanism model run with today's facts reaches the SAME state (store, bindings, printed
-    lines, panic) as the specification. `Dom` excludes exactly the classes of Model/ShareDom.lean. -/
-theorem ops_refine_partial (G : Growth) (st : St) (ops : List Op) (h : Dom ops = true) :
-    runY share G st ops = Spec.runGo G st ops := by
-  have hc : classOf ops = none := by
-    unfold Dom at h
-    cases hcl : classOf ops with
-    | none => rfl
-    | some c => simp [hcl] at h
-  exact runY_spec G ops st hc
-
-/-- the observable form, from the empty state -/
-theorem ops_refine (G : Growth) (ops : List Op) (h : Dom ops = true) :
-    obsOf (runY share G St.empty ops) = obsOf (Spec.runGo G St.empty ops) := by
-  rw [ops_refine_partial G St.empty ops h]
+theorem C04_full : C04_full_statement := ops_refine_obs
 
 /-- the same statement about the facts regenerated from the repository on this run -/
-theorem ops_refine_generated (G : Growth) (st : St) (ops : List Op) (h : Dom ops = true) :
+theorem ops_refine_generated (G : Growth) (st : St) (ops : List Op) :
     runY Generated.C04.share G st ops = Spec.runGo G st ops := by
-  rw [sharefacts_tie]; exact ops_refine_partial G st ops h
+  rw [sharefacts_tie]; exact ops_refine G st ops
 
-/-! ### the domain is not empty -/
+/-- one statement, first or repeated execution (what the loop bodies use) -/
+theorem stmt_refine (G : Growth) (st : St) (o : SOp) (reexec : Bool) :
+    sopY share G reexec st o = Spec.sop G st o := sopY_spec G st o reexec
+
+/-! ### a non-trivial instance -/
 
 def G0 : Growth := fun _ _ cap n => max (2 * cap) n
 
@@ -81,7 +90,7 @@ def exDom : List Op :=
    .capture (.var 1) 7 (.field (.var 0) 0) 1000 [0, 1, 0],
    .s (.show [1, 2, 3, 6])]
 
-example : Dom exDom = true ∧
+example :
     obsOf (runY share G0 St.empty exDom) =
       ⟨["v4=0 v5={3,4}", "v4=1 v5={11,2}", "c0={1003,4} c1={1011,202} c0={2003,4}",
         "v1=[{3,4},{11,202}] v2=s3/4[{3,4},{11,2},{5,6}] v3=&11 v6=[{77,4},{11,202}]"], "ok"⟩ := by decide
@@ -130,8 +139,7 @@ theorem assign_independent_stmt (G : Growth) (st st1 st2 : St) (ld ls : LExp) (d
     (ha : sopY share G false st (.assign ld (.load ls)) = .ok st1)
     (hw : st1.write ⟨src.cell, src.path ++ p⟩ w = .ok st2) :
     st2.read dst = .ok v := by
-  have hcl : sopClass false (.assign ld (.load ls)) = none := by simp [sopClass]
-  rw [sopY_spec G st _ false false (fun e => by cases e) hcl] at ha
+  rw [sopY_spec G st _ false] at ha
   simp only [Spec.sop, Spec.assign, Spec.evalR, hrd, hrs, hv, bind, Except.bind] at ha
   unfold St.write at ha hw
   unfold St.read at hv ⊢
@@ -162,8 +170,7 @@ theorem slice_shares (G : Growth) (st st1 : St) (s t : Name) (ls lt b : Loc) (of
     (hi : i < len) (hdis : Loc.disjoint ⟨b.cell, b.path ++ [off + i]⟩ lt = true)
     (ha : sopY share G false st (.assign (.index (.var s) (.lit i)) (.lit w)) = .ok st1) :
     (do let d ← resolve st1 (.index (.var t) (.lit i)); st1.read d) = .ok w := by
-  have hcl : sopClass false (.assign (.index (.var s) (.lit i)) (.lit w)) = none := by simp [sopClass]
-  rw [sopY_spec G st _ false false (fun e => by cases e) hcl] at ha
+  rw [sopY_spec G st _ false] at ha
   simp only [Spec.sop, Spec.assign, Spec.evalR, resolve, idxVal, hs, hrs, hi, if_true, bind, Except.bind] at ha
   unfold St.write at ha
   cases h1 : writeLoc st.cells ⟨b.cell, b.path ++ [off + i]⟩ w with
@@ -186,8 +193,7 @@ theorem ptr_shares (G : Growth) (st st1 : St) (p q : Name) (lp lq tgt : Loc) (w 
     (hdis : Loc.disjoint tgt lq = true)
     (ha : sopY share G false st (.assign (.deref (.var p)) (.lit w)) = .ok st1) :
     (do let d ← resolve st1 (.deref (.var q)); st1.read d) = .ok w := by
-  have hcl : sopClass false (.assign (.deref (.var p)) (.lit w)) = none := by simp [sopClass]
-  rw [sopY_spec G st _ false false (fun e => by cases e) hcl] at ha
+  rw [sopY_spec G st _ false] at ha
   simp only [Spec.sop, Spec.assign, Spec.evalR, resolve, hp, hrp, bind, Except.bind] at ha
   unfold St.write at ha
   cases h1 : writeLoc st.cells tgt w with
@@ -236,8 +242,7 @@ theorem map_shares (G : Growth) (st st1 : St) (m n : Name) (lm ln : Loc) (ref k 
     (hdis : Loc.disjoint ⟨ref, []⟩ ln = true)
     (ha : sopY share G false st (.mapSet (.var m) (.lit k) (.lit w)) = .ok st1) :
     Spec.evalR st1 (.lookup (.var n) (.lit k) zero) = .ok (w, st1) := by
-  have hcl : sopClass false (.mapSet (.var m) (.lit k) (.lit w)) = none := by simp [sopClass]
-  rw [sopY_spec G st _ false false (fun e => by cases e) hcl] at ha
+  rw [sopY_spec G st _ false] at ha
   simp only [Spec.sop, Spec.mapSet, Spec.evalR, resolve, keyVal, idxVal, hm, hrm, mapStore, bind, Except.bind] at ha
   cases hc : st.read ⟨ref, []⟩ with
   | error e => simp [hc] at ha
@@ -362,7 +367,8 @@ theorem call_args_copied_example :
        .s (.callMut true (.var 2) (.index (.var 0) (.lit 0)) 99 (.load (.var 1))),
        .s (.show [1, 2])]) = ⟨["v1=[1,2] v2=[99,2]"], "ok"⟩ := by decide
 
-/-! ### what `Dom` excludes is real: one witness per class (the replay inputs of the listed findings) -/
+/-! ### regressions: the replay program of every repaired finding now refines the specification, and the model run
+    with the fact as it was BEFORE the repair reproduces the old divergence -/
 
 /-- F21 `a := 1; a, c := 2, a` — formerly: the multi-DEFINE branch of `assign` stored sequentially and c got the NEW a;
     repaired by commit 3e30c22 of the repository (all sources are read before any destination is set) -/
@@ -371,8 +377,6 @@ def progF21 : List Op :=
    .s (.multidef [1, 2] [true, false] [.int 0, .int 0] [.lit (.int 2), .load (.var 1)]),
    .s (.show [1, 2])]
 
-/-- with the facts of the repaired source the model prints what Go prints (the program is still outside `Dom`: a is
-    only redeclared, see `multidefine_redeclared_witness`) -/
 theorem multidefine_two_phase_fixed :
     obsOf (runY share G0 St.empty progF21) = ⟨["v1=2 v2=1"], "ok"⟩ ∧
     obsOf (Spec.runGo G0 St.empty progF21) = ⟨["v1=2 v2=1"], "ok"⟩ := by decide
@@ -380,6 +384,11 @@ theorem multidefine_two_phase_fixed :
 /-- … and with the sequential shape (the source before 3e30c22) the model reproduces F21: c = 2 -/
 theorem fact_multiDefineTemps_matters :
     obsOf (runY { share with multiDefineTemps := false } G0 St.empty progF21) = ⟨["v1=2 v2=2"], "ok"⟩ := by decide
+
+/-- since 8bd8040 the redeclared a is set IN PLACE, so the sources must be copied first (`if redeclare { … v.Set(t[i]) … }`):
+    without the copy the second source still aliases a's cell and F21 is back -/
+theorem fact_multiDefineRedeclCopies_matters :
+    obsOf (runY { share with multiDefineRedeclCopies := false } G0 St.empty progF21) = ⟨["v1=2 v2=2"], "ok"⟩ := by decide
 
 /-- `a, b := 1, 2; a, b = id(b), id(a)` — formerly finding F04-1 (a multi-assign whose right-hand sides are calls
     was not two-phase: 2 2), repaired by commit 647e2cf of the repository -/
@@ -394,9 +403,7 @@ def progCallDrop : List Op :=
    .s (.multi [.var 1, .var 2] [.idcall (.load (.var 2)), .load (.var 3)]),
    .s (.show [1, 2])]
 
-/-- with the facts of the repaired source both programs are inside `Dom` and the model gives what Go gives -/
 theorem multi_shortcut_fixed :
-    Dom progCallSwap = true ∧ Dom progCallDrop = true ∧
     obsOf (runY share G0 St.empty progCallSwap) = ⟨["v1=2 v2=1"], "ok"⟩ ∧
     obsOf (runY share G0 St.empty progCallDrop) = ⟨["v1=2 v2=5"], "ok"⟩ := by decide
 
@@ -419,7 +426,6 @@ def progStructLit : List Op :=
    .s (.show [1, 2])]
 
 theorem struct_lit_assign_fixed :
-    Dom progStructLit = true ∧
     obsOf (runY share G0 St.empty progStructLit) = ⟨["v1={0,-7} v2=&{0,-7}"], "ok"⟩ := by decide
 
 /-- … and without doComposite's arm for plain assignments (the source before 3590fb8) the model reproduces it -/
@@ -432,33 +438,53 @@ theorem fact_structLitAssignSets_matters :
 def progLookup2 : List Op :=
   [.s (.define 1 (.mkmap (.cons (.str (.cons (.int 1) (.cons (.int 1) .nil))) .nil))),
    .s (.define 2 (.mkslice (.cons (.int 1) (.cons (.int 2) (.cons (.int 1) .nil))))),
-   .range (.var 2) 3 4 [.lookup2 true 5 6 (.var 1) (.var 4) (.int 0), .show [5, 6]]]
+   .range (.var 2) 3 4 [.lookup2 true 5 6 (.var 1) (.var 4) (.int 0) false false, .show [5, 6]]]
 
 theorem lookup2_zero_fixed :
     obsOf (runY share G0 St.empty progLookup2) = ⟨["v5=1 v6=1", "v5=0 v6=0", "v5=1 v6=1"], "ok"⟩ ∧
     obsOf (Spec.runGo G0 St.empty progLookup2) = ⟨["v5=1 v6=1", "v5=0 v6=0", "v5=1 v6=1"], "ok"⟩ := by decide
 
 theorem fact_lookup2OnlyIfValid_matters :
-    obsOf (runY { share with lookup2OnlyIfValid := true } G0 St.empty progLookup2)
+    obsOf (runY { share with lookup2OnlyIfValid := true, lookup2DefineFresh := false } G0 St.empty progLookup2)
       = ⟨["v5=1 v6=1", "v5=1 v6=0", "v5=1 v6=1"], "ok"⟩ := by decide
 
-/-- what remains of it: `r, ok := m[k]` in a loop body does not declare a new r per iteration — visible when the
-    address of r escapes: `for _, k := range []int{1,2,1} { r, ok := m[k]; ps = append(ps, &r) }` -/
+/-- F04-12 `for _, k := range []int{1,2,1} { r, ok := m[k]; ps = append(ps, &r) }` — formerly `r, ok := m[k]` in a loop
+    body did not declare a new r per iteration (1 1 1 through the pointers); repaired by commit 5a404d3 of the repository
+    (genValueDefine) -/
 def progLookup2Loop : List Op :=
   [.s (.define 1 (.mkmap (.cons (.str (.cons (.int 1) (.cons (.int 1) .nil))) .nil))),
    .s (.define 2 (.mkslice (.cons (.int 1) (.cons (.int 2) (.cons (.int 1) .nil))))),
    .s (.define 7 (.mkslice .nil)),
-   .range (.var 2) 3 4 [.lookup2 true 5 6 (.var 1) (.var 4) (.int 0),
+   .range (.var 2) 3 4 [.lookup2 true 5 6 (.var 1) (.var 4) (.int 0) false false,
                         .append false (.var 7) (.load (.var 7)) [.addr (.var 5)] .nil 8 false],
    .s (.show [7])]
 
-theorem lookup2_define_in_loop_witness :
-    Dom progLookup2Loop = false ∧ classOf progLookup2Loop = some "lookup2-define-in-loop" ∧
-    obsOf (runY share G0 St.empty progLookup2Loop) = ⟨["v7=s3/4[&1,&1,&1]"], "ok"⟩ ∧
+theorem lookup2_define_in_loop_fixed :
+    shapesOf progLookup2Loop = ["lookup2-define-in-loop"] ∧
+    obsOf (runY share G0 St.empty progLookup2Loop) = ⟨["v7=s3/4[&1,&0,&1]"], "ok"⟩ ∧
     obsOf (Spec.runGo G0 St.empty progLookup2Loop) = ⟨["v7=s3/4[&1,&0,&1]"], "ok"⟩ := by decide
 
-/-- `for _, e := range [2]int{1,2} { v := [1]int{7}; p = append(p, &v) }; *p[0] += 100`: an array literal
-    declared in a loop body is stored through the cell of the previous iteration -/
+/-- … and with plain `genValue` destinations (the source before 5a404d3) the three pointers are one variable -/
+theorem fact_lookup2DefineFresh_matters :
+    obsOf (runY { share with lookup2DefineFresh := false } G0 St.empty progLookup2Loop) = ⟨["v7=s3/4[&1,&1,&1]"], "ok"⟩ := by decide
+
+/-- `v := 7; p := &v; v, ok := m[1]` with m = {1: 4}: v is only redeclared, it is assigned and p sees 4 -/
+def progLookup2Redecl : List Op :=
+  [.s (.define 1 (.mkmap (.cons (.str (.cons (.int 1) (.cons (.int 4) .nil))) .nil))),
+   .s (.define 2 (.lit (.int 7))), .s (.define 3 (.addr (.var 2))),
+   .s (.lookup2 true 2 4 (.var 1) (.lit 1) (.int 0) true false),
+   .s (.show [2, 3, 4])]
+
+/-- the guard of genValueDefine (`… || n.redeclared || …`) matters: without it the redeclared v would be re-created
+    and p would keep the old variable -/
+theorem fact_lookup2RedeclInPlace_matters :
+    obsOf (runY share G0 St.empty progLookup2Redecl) = ⟨["v2=4 v3=&4 v4=1"], "ok"⟩ ∧
+    obsOf (Spec.runGo G0 St.empty progLookup2Redecl) = ⟨["v2=4 v3=&4 v4=1"], "ok"⟩ ∧
+    obsOf (runY { share with lookup2RedeclInPlace := false } G0 St.empty progLookup2Redecl) = ⟨["v2=4 v3=&7 v4=1"], "ok"⟩ := by decide
+
+/-- F04-4 `for _, e := range [2]int{1,2} { v := [1]int{7}; p = append(p, &v) }; (*p[0])[0] += 100` — formerly an array
+    literal declared in a loop body was stored through the cell of the previous iteration ([107] [107]); repaired by
+    commit 1436613 of the repository (genValueLit) -/
 def progLoopLit : List Op :=
   [.s (.define 1 (.lit (.arr (.cons (.int 1) (.cons (.int 2) .nil))))),
    .s (.define 2 (.mkslice .nil)),
@@ -467,41 +493,134 @@ def progLoopLit : List Op :=
    .s (.opassign (.index (.deref (.index (.var 2) (.lit 0))) (.lit 0)) 100),
    .s (.show [2])]
 
-theorem define_lit_in_loop_witness :
-    Dom progLoopLit = false ∧ classOf progLoopLit = some "define-lit-in-loop" ∧
-    obsOf (runY share G0 St.empty progLoopLit) = ⟨["v2=s2/2[&[107],&[107]]"], "ok"⟩ ∧
+theorem define_lit_in_loop_fixed :
+    shapesOf progLoopLit = ["define-lit-in-loop"] ∧
+    obsOf (runY share G0 St.empty progLoopLit) = ⟨["v2=s2/2[&[107],&[7]]"], "ok"⟩ ∧
     obsOf (Spec.runGo G0 St.empty progLoopLit) = ⟨["v2=s2/2[&[107],&[7]]"], "ok"⟩ := by decide
 
-/-- `a := 1; pa := &a; a, c := 2, 3`: a merely redeclared variable gets a new cell -/
+/-- the same with a slice literal and a map literal declared in the body, their addresses kept twice per iteration -/
+def progLoopSliceLit : List Op :=
+  [.s (.define 1 (.lit (.arr (.cons (.int 1) (.cons (.int 2) .nil))))),
+   .s (.define 2 (.mkslice .nil)),
+   .range (.var 1) 3 4 [.define 5 (.mkslice (.cons (.int 7) .nil)),
+                        .append false (.var 2) (.load (.var 2)) [.addr (.var 5)] .nil 8 false,
+                        .define 6 (.mkmap .nil), .mapSet (.var 6) (.lit 1) (.load (.var 4)),
+                        .append false (.var 2) (.load (.var 2)) [.addr (.var 5)] .nil 8 false],
+   .s (.assign (.deref (.index (.var 2) (.lit 0))) (.mkslice .nil)),
+   .s (.show [2])]
+
+/-- … and with `valueGenerator(n, n.findex)` in arrayLit / mapLit (the source before 1436613) every pointer is the one variable -/
+theorem fact_arrayLitFresh_matters :
+    obsOf (runY { share with arrayLitFresh := false } G0 St.empty progLoopLit) = ⟨["v2=s2/2[&[107],&[107]]"], "ok"⟩ ∧
+    obsOf (runY share G0 St.empty progLoopSliceLit) = ⟨["v2=s4/4[&s0/0[],&s0/0[],&s1/1[7],&s1/1[7]]"], "ok"⟩ ∧
+    obsOf (runY { share with arrayLitFresh := false } G0 St.empty progLoopSliceLit)
+      = ⟨["v2=s4/4[&s0/0[],&s0/0[],&s0/0[],&s0/0[]]"], "ok"⟩ := by decide
+
+/-- `a := [1]int{1}; p := &a; a = [1]int{2}`: genValueLit keeps the in-place store for a literal ASSIGNED to an existing
+    variable (`if n.anc.kind == assignStmt`); without that arm the assignment would re-create a and p would keep [1] -/
+def progLitAssign : List Op :=
+  [.s (.define 1 (.lit (.arr (.cons (.int 1) .nil)))), .s (.define 2 (.addr (.var 1))),
+   .s (.assign (.var 1) (.lit (.arr (.cons (.int 2) .nil)))), .s (.show [1, 2])]
+
+theorem fact_arrayLitAssignInPlace_matters :
+    obsOf (runY share G0 St.empty progLitAssign) = ⟨["v1=[2] v2=&[2]"], "ok"⟩ ∧
+    obsOf (Spec.runGo G0 St.empty progLitAssign) = ⟨["v1=[2] v2=&[2]"], "ok"⟩ ∧
+    obsOf (runY { share with arrayLitAssignInPlace := false } G0 St.empty progLitAssign) = ⟨["v1=[2] v2=&[1]"], "ok"⟩ := by decide
+
+/-- F04-11 `for … { p := &[2]int{7,7}; p[0] = e; ps = append(ps, p) }` — formerly `&[n]T{…}` evaluated again yielded the
+    same pointer; repaired by the same commit 1436613. (The model's `new` always allocated: the old behaviour of THIS
+    shape was never expressible with a fact — it lives in the literal's own frame slot — and is covered by the source
+    replay of F04-11 and the harness's default stream.) -/
+def progAddrLitLoop : List Op :=
+  [.s (.define 1 (.lit (.arr (.cons (.int 0) (.cons (.int 1) .nil))))),
+   .s (.define 2 (.mkslice .nil)),
+   .range (.var 1) 3 4 [.define 5 (.new (.arr (.cons (.int 7) (.cons (.int 7) .nil)))),
+                        .assign (.index (.var 5) (.lit 0)) (.load (.var 4)),
+                        .append false (.var 2) (.load (.var 2)) [.load (.var 5)] .nil 8 false],
+   .s (.show [2])]
+
+theorem addr_arraylit_in_loop_fixed :
+    obsOf (runY share G0 St.empty progAddrLitLoop) = ⟨["v2=s2/2[&[0,7],&[1,7]]"], "ok"⟩ ∧
+    obsOf (Spec.runGo G0 St.empty progAddrLitLoop) = ⟨["v2=s2/2[&[0,7],&[1,7]]"], "ok"⟩ := by decide
+
+/-- F04-5 `a := 1; pa := &a; a, c := 2, 3` — formerly a merely redeclared variable got a new cell (*pa stayed 1);
+    repaired by commits 8bd8040 and 6ebc898 of the repository -/
 def progRedecl : List Op :=
   [.s (.define 1 (.lit (.int 1))), .s (.define 2 (.addr (.var 1))),
    .s (.multidef [1, 3] [true, false] [.int 0, .int 0] [.lit (.int 2), .lit (.int 3)]),
    .s (.show [1, 2, 3])]
 
-theorem multidefine_redeclared_witness :
-    Dom progRedecl = false ∧ classOf progRedecl = some "multidefine-redeclared" ∧
-    obsOf (runY share G0 St.empty progRedecl) = ⟨["v1=2 v2=&1 v3=3"], "ok"⟩ ∧
+theorem multidefine_redeclared_fixed :
+    shapesOf progRedecl = ["multidefine-redeclared"] ∧
+    obsOf (runY share G0 St.empty progRedecl) = ⟨["v1=2 v2=&2 v3=3"], "ok"⟩ ∧
     obsOf (Spec.runGo G0 St.empty progRedecl) = ⟨["v1=2 v2=&2 v3=3"], "ok"⟩ := by decide
 
-/-- `s := []int{1,2,3}; t := append(s[:0], s[1], s[0])`: the operands of append are aliasing slots -/
+theorem fact_multiDefineRedeclAssigns_matters :
+    obsOf (runY { share with multiDefineRedeclAssigns := false } G0 St.empty progRedecl) = ⟨["v1=2 v2=&1 v3=3"], "ok"⟩ := by decide
+
+/-- F04-6 `s := []int{1,2,3}; t := append(s[:0], s[1], s[0])` — formerly the operands of append were aliasing slots
+    stored one by one ([2 2]); repaired by commit b312e89 of the repository -/
 def progAppendAlias : List Op :=
   [.s (.define 1 (.mkslice (.cons (.int 1) (.cons (.int 2) (.cons (.int 3) .nil))))),
    .s (.append true (.var 2) (.slice (.var 1) none (some (.lit 0)) none)
         [.load (.index (.var 1) (.lit 1)), .load (.index (.var 1) (.lit 0))] (.int 0) 8 true),
    .s (.show [1, 2])]
 
-theorem append_alias_witness :
-    Dom progAppendAlias = false ∧ classOf progAppendAlias = some "append-alias-args" ∧
-    obsOf (runY share G0 St.empty progAppendAlias) = ⟨["v1=s3/3[2,2,3] v2=s2/3[2,2]"], "ok"⟩ ∧
+theorem append_alias_fixed :
+    shapesOf progAppendAlias = ["append-alias-args"] ∧
+    obsOf (runY share G0 St.empty progAppendAlias) = ⟨["v1=s3/3[2,1,3] v2=s2/3[2,1]"], "ok"⟩ ∧
     obsOf (Spec.runGo G0 St.empty progAppendAlias) = ⟨["v1=s3/3[2,1,3] v2=s2/3[2,1]"], "ok"⟩ := by decide
 
-theorem C04_full_statement_fails : ¬ C04_full_statement := by
-  intro h
-  have := h G0 progRedecl
-  revert this
-  decide
+theorem fact_appendArgsAreSlots_matters :
+    obsOf (runY { share with appendArgsAreSlots := true } G0 St.empty progAppendAlias) = ⟨["v1=s3/3[2,2,3] v2=s2/3[2,2]"], "ok"⟩ := by decide
 
-/-! ### the facts matter: with one choice flipped, a program INSIDE `Dom` tells the model from the specification
+/-- F04-10 `m := map[int]int{2: 1}; ps := []*int{nil}; m[2] = *ps[0]` — formerly the nil dereference went unnoticed and
+    the store deleted the key; repaired by commit 93fb945 of the repository (the dereference panics) -/
+def progNilDerefMap : List Op :=
+  [.s (.define 1 (.mkmap (.cons (.str (.cons (.int 2) (.cons (.int 1) .nil))) .nil))),
+   .s (.define 2 (.mkslice (.cons .nil .nil))),
+   .s (.mapSet (.var 1) (.lit 2) (.load (.deref (.index (.var 2) (.lit 0))))),
+   .s (.show [1])]
+
+theorem nil_deref_map_store_fixed :
+    shapesOf progNilDerefMap = ["nil-deref-map-store"] ∧
+    obsOf (runY share G0 St.empty progNilDerefMap) = ⟨[], "nilderef"⟩ ∧
+    obsOf (Spec.runGo G0 St.empty progNilDerefMap) = ⟨[], "nilderef"⟩ := by decide
+
+theorem fact_derefNilPanics_matters :
+    obsOf (runY { share with derefNilPanics := false } G0 St.empty progNilDerefMap) = ⟨["v1=m[]"], "ok"⟩ := by decide
+
+/-- F04-7 / F04-9 `a := [3]int{1,2,3}; pa := &a; for i, v := range pa { a[2] += 10 }; pa[1] = 5; q := &pa[0]; *q = 7` —
+    ranging over a pointer to an array is live on the pointee and leaves the pointer usable (formerly the pointer variable
+    was overwritten by the ranged array: repaired by da35a0b, a frame-layout matter the model has no fact for — its
+    anchor is the fingerprint "cfg.go: rangeStmt, case ptrT"); `&pa[0]` is accepted (formerly a compile error:
+    repaired by 0780d8c, fingerprint "addressExpr") -/
+def progRangePtr : List Op :=
+  [.s (.define 1 (.lit (.arr (.cons (.int 1) (.cons (.int 2) (.cons (.int 3) .nil)))))),
+   .s (.define 2 (.addr (.var 1))),
+   .range (.var 2) 3 4 [.opassign (.index (.var 1) (.lit 2)) 10, .show [3, 4]],
+   .s (.assign (.index (.var 2) (.lit 1)) (.lit (.int 5))),
+   .s (.define 5 (.addr (.index (.var 2) (.lit 0)))),
+   .s (.assign (.deref (.var 5)) (.lit (.int 7))),
+   .s (.show [1, 2, 5])]
+
+theorem range_ptr_array_fixed :
+    obsOf (runY share G0 St.empty progRangePtr)
+      = ⟨["v3=0 v4=1", "v3=1 v4=2", "v3=2 v4=23", "v1=[7,5,33] v2=&[7,5,33] v5=&7"], "ok"⟩ ∧
+    obsOf (Spec.runGo G0 St.empty progRangePtr)
+      = ⟨["v3=0 v4=1", "v3=1 v4=2", "v3=2 v4=23", "v1=[7,5,33] v2=&[7,5,33] v5=&7"], "ok"⟩ := by decide
+
+/-- **Ranging over a pointer to an array is live on the pointee**: iteration k reads element k of the array the pointer
+    pointed to when the loop started, in the CURRENT store -/
+theorem range_ptr_live (st : St) (l : LExp) (loc t : Loc) (vs : Vals)
+    (hr : resolve st l = .ok loc) (hv : st.read loc = .ok (.ptr t)) (ha : st.read t = .ok (.arr vs)) :
+    ∃ src, rangeSrcY share st l = .ok src ∧ rangeLen src = vs.length ∧
+      ∀ (st' : St) (k : Nat), rangeElem st' src k = st'.read ⟨t.cell, t.path ++ [0 + k]⟩ := by
+  refine ⟨.live t 0 vs.length, ?_, rfl, ?_⟩
+  · simp [rangeSrcY, hr, hv, ha, bind, Except.bind]
+  · intro st' k; rfl
+
+/-! ### the facts matter: with one choice flipped, a program tells the model from the specification
     (what the correspondence run would see after such a change of the source) -/
 
 /-- `genValueRangeArray` without the `Interface()` round trip: ranging over an array becomes live -/
@@ -509,7 +628,6 @@ theorem fact_rangeSnapshotsArray_matters :
     let ops : List Op :=
       [.s (.define 1 (.lit (.arr (.cons (.int 1) (.cons (.int 2) .nil))))),
        .range (.var 1) 2 3 [.opassign (.index (.var 1) (.lit 1)) 10, .show [3]]]
-    Dom ops = true ∧
     obsOf (runY { share with rangeSnapshotsArray := false } G0 St.empty ops) ≠ obsOf (Spec.runGo G0 St.empty ops) := by decide
 
 /-- multi-assign without temporaries: a swap duplicates one value -/
@@ -517,7 +635,6 @@ theorem fact_multiTemps_matters :
     let ops : List Op :=
       [.s (.define 1 (.lit (.int 1))), .s (.define 2 (.lit (.int 2))),
        .s (.multi [.var 1, .var 2] [.load (.var 2), .load (.var 1)]), .s (.show [1, 2])]
-    Dom ops = true ∧
     obsOf (runY { share with multiTemps := false } G0 St.empty ops) ≠ obsOf (Spec.runGo G0 St.empty ops) := by decide
 
 /-- `dest[i] = val` in call: the parameter aliases the caller's variable -/
@@ -525,7 +642,6 @@ theorem fact_callCopiesArgs_matters :
     let ops : List Op :=
       [.s (.define 1 (.lit (.arr (.cons (.int 1) (.cons (.int 2) .nil))))),
        .s (.callMut true (.var 2) (.index (.var 0) (.lit 0)) 99 (.load (.var 1))), .s (.show [1, 2])]
-    Dom ops = true ∧
     obsOf (runY { share with callCopiesArgs := false } G0 St.empty ops) ≠ obsOf (Spec.runGo G0 St.empty ops) := by decide
 
 /-- getFunc without `clone()`: every closure sees the variable of the last iteration -/
@@ -533,7 +649,6 @@ theorem fact_closureClonesFrame_matters :
     let ops : List Op :=
       [.s (.define 1 (.lit (.arr (.cons (.int 1) (.cons (.int 2) .nil))))),
        .capture (.var 1) 2 (.var 0) 100 [0, 1]]
-    Dom ops = true ∧
     obsOf (runY { share with closureClonesFrame := false } G0 St.empty ops) ≠ obsOf (Spec.runGo G0 St.empty ops) := by decide
 
 /-- define without `reflect.New`: a variable declared in a loop body is one cell for all iterations -/
@@ -541,7 +656,6 @@ theorem fact_defineFresh_matters :
     let ops : List Op :=
       [.s (.define 1 (.lit (.arr (.cons (.int 1) (.cons (.int 2) .nil))))),
        .capture (.var 1) 2 (.var 0) 100 [0, 1]]
-    Dom ops = true ∧
     obsOf (runY { share with defineFresh := false } G0 St.empty ops) ≠ obsOf (Spec.runGo G0 St.empty ops) := by decide
 
 end YaegiVerif.Props.C04
